@@ -52,6 +52,7 @@ func Module(rt *rapid.T, cfg Cfg) (*am.Module, map[string]int) {
 	}
 	g.blockAddrGlobal()
 	g.gepGlobals()
+	g.useListOrders()
 	g.metadata()
 	if g.cfg.DebugInfo && g.chance("debuginfo", 3, 4) {
 		g.debugInfo()
@@ -626,6 +627,7 @@ func DrawNoise(rt *rapid.T) am.Noise {
 		Explicit:        rapid.Bool().Draw(rt, "n.explicit"),
 		Comments:        rapid.IntRange(0, 2).Draw(rt, "n.comments") == 0,
 		FullCallType:    rapid.Bool().Draw(rt, "n.fullcalltype"),
+		SplitAttrGroups: rapid.IntRange(0, 2).Draw(rt, "n.splitattrgroups") == 0,
 		Indent:          rapid.SampledFrom([]string{"", "\t", "        ", " "}).Draw(rt, "n.indent"),
 	}
 }
@@ -830,4 +832,151 @@ func (g *G) vecIndexConst(t *am.Type) *am.Const {
 		c.Elems = append(c.Elems, g.intConst(t.Elem))
 	}
 	return c
+}
+
+// useListOrders adds uselistorder directives on values with exactly two uses: a fresh global used by two
+// other fresh globals, a blockaddress constant used twice in a global initialiser, and (function level)
+// a parameter or instruction result with exactly two uses inside its function.
+func (g *G) useListOrders() {
+	if g.off("uselistorder") || !g.chance("uselistorder", 1, 3) {
+		return
+	}
+	m := g.M
+	if g.chance("ulo-global", 1, 2) {
+		base := &am.Global{Name: g.fresh("ulo"), T: am.I32, Linkage: "internal", Init: &am.Const{K: am.CInt, T: am.I32, Int: big.NewInt(0)}}
+		m.Globals = append(m.Globals, base)
+		for k := 0; k < 2; k++ {
+			m.Globals = append(m.Globals, &am.Global{Name: g.fresh("ulo.user"), T: am.P(am.I32), Linkage: "internal", Init: &am.Const{K: am.CGlobal, T: am.P(am.I32), Ref: base}})
+		}
+		m.UseListOrders = append(m.UseListOrders, &am.UseListOrder{V: &am.Value{K: am.VConst, C: &am.Const{K: am.CGlobal, T: am.P(am.I32), Ref: base}}, Indices: []uint64{1, 0}})
+		g.feat("uselistorder/global")
+	}
+	// blockaddress used exactly twice (in one fresh global), only when no unnamed globals exist (see blockAddrGlobal)
+	unnamed := false
+	for _, gl := range m.Globals {
+		unnamed = unnamed || gl.Name == ""
+	}
+	for _, f := range m.Funcs {
+		unnamed = unnamed || f.Name == ""
+	}
+	for _, a := range m.Aliases {
+		unnamed = unnamed || a.Name == ""
+	}
+	if !unnamed && g.chance("ulo-blockaddr", 1, 2) {
+		for _, f := range m.Funcs {
+			if f.AddrSpace != 0 || f.Name == "" || len(f.Blocks) < 2 {
+				continue
+			}
+			// a named non-entry block whose address is not taken anywhere else
+			for bi, b := range f.Blocks {
+				if bi == 0 || b.Name == "" || g.blockAddressTaken(b) {
+					continue
+				}
+				ba := func() *am.Const { return &am.Const{K: am.CBlockAddr, T: am.P(am.I8), Ref: f, Block: b} }
+				t := am.A(2, am.P(am.I8))
+				m.Globals = append(m.Globals, &am.Global{Name: g.fresh("ulo.ba"), T: t, Linkage: "internal", Constant: true, Init: &am.Const{K: am.CArray, T: t, Elems: []*am.Const{ba(), ba()}}})
+				m.UseListOrders = append(m.UseListOrders, &am.UseListOrder{V: &am.Value{K: am.VConst, C: ba()}, Indices: []uint64{1, 0}})
+				g.feat("uselistorder/blockaddress")
+				goto doneBA
+			}
+		}
+	}
+doneBA:
+	// function level: a value with exactly two uses
+	for _, f := range m.Funcs {
+		if f.Blocks == nil || !g.chance("ulo-local", 1, 2) {
+			continue
+		}
+		uses := map[any]int{}
+		count := func(v *am.Value) {
+			if v == nil {
+				return
+			}
+			switch v.K {
+			case am.VInst:
+				uses[v.I]++
+			case am.VParam:
+				uses[v.P]++
+			case am.VMetadata:
+				if v.MD != nil && v.MD.K == am.MDLocalValue {
+					// a metadata use: LLVM counts it through the metadata wrapper, keep such values out
+					if v.MD.Local.K == am.VInst {
+						uses[v.MD.Local.I] += 100
+					} else if v.MD.Local.K == am.VParam {
+						uses[v.MD.Local.P] += 100
+					}
+				}
+			}
+		}
+		for _, b := range f.Blocks {
+			for _, in := range append(append([]*am.Inst{}, b.Insts...), b.Term) {
+				for _, a := range in.Args {
+					count(a)
+				}
+				count(in.Callee)
+				for _, inc := range in.Incs {
+					count(inc.V)
+				}
+				for _, bd := range in.Bundles {
+					for _, a := range bd.Args {
+						count(a)
+					}
+				}
+			}
+		}
+		for _, p := range f.Params {
+			if uses[p] == 2 {
+				f.UseListOrders = append(f.UseListOrders, &am.UseListOrder{V: &am.Value{K: am.VParam, P: p}, Indices: []uint64{1, 0}})
+				g.feat("uselistorder/local")
+				break
+			}
+		}
+		if len(f.UseListOrders) == 0 {
+			for _, b := range f.Blocks {
+				for _, in := range b.Insts {
+					if in.HasValue() && uses[in] == 2 && len(f.UseListOrders) == 0 {
+						f.UseListOrders = append(f.UseListOrders, &am.UseListOrder{V: &am.Value{K: am.VInst, I: in}, Indices: []uint64{1, 0}})
+						g.feat("uselistorder/local")
+					}
+				}
+			}
+		}
+	}
+}
+
+// blockAddressTaken reports whether a blockaddress of b occurs in any instruction or initialiser generated so far.
+func (g *G) blockAddressTaken(b *am.Block) bool {
+	taken := false
+	var inConst func(c *am.Const)
+	inConst = func(c *am.Const) {
+		if c == nil {
+			return
+		}
+		if c.K == am.CBlockAddr && c.Block == b {
+			taken = true
+		}
+		for _, e := range c.Elems {
+			inConst(e)
+		}
+		if c.Expr != nil {
+			for _, a := range c.Expr.Args {
+				inConst(a)
+			}
+		}
+	}
+	for _, gl := range g.M.Globals {
+		inConst(gl.Init)
+	}
+	for _, f := range g.M.Funcs {
+		for _, blk := range f.Blocks {
+			for _, in := range append(append([]*am.Inst{}, blk.Insts...), blk.Term) {
+				for _, a := range in.Args {
+					if a != nil && a.K == am.VConst {
+						inConst(a.C)
+					}
+				}
+			}
+		}
+	}
+	return taken
 }
